@@ -350,6 +350,17 @@ def _serve_parts(ans):
 
 
 def judge_c08(ctx, idx, op, impl, mi, ms, reason):
+    if op[0] == "lsnpipe":
+        # real listener: n pipelined requests with large answers, then one on which the handler fails; the peer reads slowly
+        ctx.count("lsnpipe_scenarios")
+        kvs = dict(t.split("=", 1) for t in op[1:] if "=" in t)
+        m = re.match(r"answers=(\d+) end=(\S+)$", impl)
+        if impl.startswith("answers=0 end=no-connection"):
+            ctx.count("lsnpipe_no_connection")
+            return []
+        if not m or int(m.group(1)) != int(kvs.get("n", "0")) or m.group(2) not in ("eof", "reset-after-answers"):
+            return [Finding("property", idx, "through the real listener: the answers produced before the handler failed did not all arrive, complete and in order, before the connection ended", expected="answers=%s end=eof" % kvs.get("n"), observed=impl[:200], name="C08_handler_fails")]
+        return []
     if op[0] == "lsn":
         # the same loop behind the real listeners (plain TCP / TLS): every request answered, in order, to its connection
         f = judge_c10(ctx, idx, op, impl, mi, ms, reason)
@@ -448,7 +459,7 @@ def cli_model_input(line, impl_answer):
     if not line.startswith("cli "):
         return line
     t = line.split(" ")
-    m = re.match(r"trace=(\S+) res=(\S+) stopped=(\d) late=(\S+)$", impl_answer)
+    m = re.match(r"trace=(\S+) res=(\S+) stopped=(\d) late=(\S+?)(?: wrote=(\S+))?$", impl_answer)
     if not m:
         return "ctrace - -"
     return "ctrace %s %s" % (m.group(1), t[4])
@@ -482,6 +493,67 @@ def judge_ctcp(ctx, idx, op, impl, mi, ms, reason):
     return f
 
 
+def _fnv(b):
+    h = 14695981039346656037
+    for x in b:
+        h = ((h ^ x) * 1099511628211) & 0xFFFFFFFFFFFFFFFF
+    return h
+
+
+def _cli_request(h, ln):
+    """the request the harness builds for `h:len` (CCR, application 4, flags 0x80, end-to-end id h+1000, one OctetString
+    AVP 12 of `ln` octets 0x55): its RFC 6733 encoding, written down here independently"""
+    padn = (4 - ln % 4) % 4
+    total = 20 + 8 + ln + padn
+    out = bytes([1]) + total.to_bytes(3, "big") + bytes([0x80]) + (272).to_bytes(3, "big") + (4).to_bytes(4, "big")
+    out += (h & 0xFFFFFFFF).to_bytes(4, "big") + ((h + 1000) & 0xFFFFFFFF).to_bytes(4, "big")
+    out += (12).to_bytes(4, "big") + bytes([0]) + (8 + ln).to_bytes(3, "big") + b"\x55" * ln + b"\0" * padn
+    return out
+
+
+def cli_written_check(ctx, idx, op, m):
+    """what the client put on the stream is exactly the encodings of the requests whose send returned Ok, in order -
+    nothing of a request that could not be encoded, nothing left over from an earlier attempt"""
+    if not m.group(5):
+        return []
+    trace = [] if m.group(1) == "-" else m.group(1).split(",")
+    plan = []
+    if op[1] != "-":
+        for t in op[1].split(","):
+            p = t.split(":")
+            plan.append((int(p[0]), int(p[1]), len(p) > 3 and p[3] == "b"))
+    late = op[5].lstrip("c") if len(op) > 5 else "-"
+    if late not in ("-", ""):
+        plan.append((int(late), 0, False))
+    # per send: result and the octets accepted while it was in progress
+    cur, acc, rets = None, {}, {}
+    for e in trace:
+        p = e.split(":")
+        if p[0] == "sb":
+            cur = int(p[1])
+            acc[cur] = 0
+        elif p[0] == "wr" and cur is not None:
+            acc[cur] = acc.get(cur, 0) + int(p[1])
+        elif p[0] == "ret":
+            rets[int(p[1])] = p[2]
+            cur = None
+    want = b""
+    for i, (h, ln, bad) in enumerate(plan):
+        if i not in rets:
+            continue
+        if rets[i] == "ok":
+            want += _cli_request(h, ln)
+        elif acc.get(i, 0) != 0:
+            ctx.count("written_check_skipped_partial_write")
+            return []
+    ctx.count("written_check")
+    got = m.group(5)
+    exp = "%d:%d" % (len(want), _fnv(want))
+    if got != exp:
+        return [Finding("property", idx, "the octets the client put on the stream are not exactly the encodings of the requests it reported as sent (a request that failed, or an earlier attempt, left something behind - the peer loses framing and no later answer can be matched)", expected="wrote=" + exp, observed="wrote=" + got, name="C11_delivery")]
+    return []
+
+
 def judge_cli(ctx, idx, op, impl, mi, ms, reason):
     if op[0] == "cliswitch":
         # two connections on one client object; the first one's reader stops with a request outstanding
@@ -496,10 +568,11 @@ def judge_cli(ctx, idx, op, impl, mi, ms, reason):
         return same(ctx, idx, op, impl, mi, "dictionary set-up")
     f = []
     lab = label_kv(ctx.case_label)
-    m = re.match(r"trace=(\S+) res=(\S+) stopped=(\d) late=(\S+)$", impl)
+    m = re.match(r"trace=(\S+) res=(\S+) stopped=(\d) late=(\S+?)(?: wrote=(\S+))?$", impl)
     if not m:
         f.append(Finding("property", idx, "the client scenario did not complete (%s)" % impl[:60], expected="trace=.. res=..", observed=impl[:200], name="C12_stopped"))
         return f
+    f += cli_written_check(ctx, idx, op, m)
     trace = [] if m.group(1) == "-" else m.group(1).split(",")
     res = [] if m.group(2) == "-" else m.group(2).split(",")
     stopped = m.group(3) == "1"
@@ -543,6 +616,12 @@ def judge_cli(ctx, idx, op, impl, mi, ms, reason):
                 f.append(Finding("property", idx, "a response future is pending and the reader never stopped although the peer closed / sent something undecodable", expected="err or answer", observed=",".join(res), name="C12_stopped"))
         elif rv == "err":
             ctx.count("future_err")
+    if lab.get("expect") == "good":
+        # one of the requests could not be encoded (its send failed); every other request was answered
+        sent = [rv for rv in res if rv != "none"]
+        ctx.count("badsend_scenarios")
+        if any(not rv.startswith("got:") for rv in sent) or len(sent) != len(op[1].split(",")) - 1:
+            f.append(Finding("property", idx, "a request that the peer answered did not get its answer (another request of the same client could not be encoded)", expected="every request that was sent got its answer", observed=",".join(res), name="C11_delivery"))
     if lab.get("expect") == "all":
         # polite scenario, every request answered: every future must hold its own answer
         if any(not rv.startswith("got:") for rv in res) or len(res) != len(op[1].split(",")):
@@ -864,7 +943,7 @@ PROPS = {
     "C05": dict(family="c05", judge=judge_c05, probes=("ench", "encw", "senc"), expect_keys=["senc_ok", "senc_err", "ench_ok", "ench_err_unrepresentable", "encw_ok", "encw_err", "encw_err_unrepresentable", "encw_fault_inside_frame", "encw_mode_1_2_zero", "encw_mode_0_0_err"], title="Encoding never reports success for a frame it did not fully produce"),
     "C06": dict(family="c06", judge=judge_c06, probes=("sdec", "senc"), title="Stream framing is independent of how bytes are segmented"),
     "C07": dict(family="c07", judge=judge_c07, probes=("sdec",), expect_keys=["L_gt1MiB_err", "L_inrange_err", "L_inrange_ok", "L_lt20_err"], title="Hostile frame lengths on a stream are refused cheaply and safely"),
-    "C08": dict(family="c08", judge=judge_c08, probes=("serve", "lsn"), expect_keys=["serve_good", "serve_herr", "serve_unencodable", "serve_malformed_kind0", "serve_malformed_kind1", "serve_malformed_kind2", "serve_malformed_kind3"], title="Server answers each request exactly once, in order, unmodified"),
+    "C08": dict(family="c08", judge=judge_c08, probes=("serve", "lsn", "lsnpipe"), expect_keys=["serve_good", "serve_herr", "serve_unencodable", "serve_malformed_kind0", "serve_malformed_kind1", "serve_malformed_kind2", "serve_malformed_kind3"], title="Server answers each request exactly once, in order, unmodified"),
     "C09": dict(family="c09", judge=judge_c08, probes=("serve",), expect_keys=["serve_readcut", "serve_writecut"], title="Server survives connection loss at any byte offset"),
     "C10": dict(family="c10", judge=judge_c10, probes=("lsn",), title="One misbehaving connection cannot disturb the others"),
     "C13": dict(family="c13", judge=judge_c13, probes=("tls", "tlsq", "tlsrude"), title="TLS settings are honoured exactly"),
